@@ -14,6 +14,7 @@ from fractions import Fraction
 
 import numpy as np
 
+from vf import bigcases
 from vf import core
 from vf import errorpaths
 from vf.oracles import sourcearea as sa
@@ -341,3 +342,4 @@ def run(ctx):
     from vf import histories
 
     histories.run(ctx, __name__, 2 if ctx.tier == "quick" else 3)
+    bigcases.run(ctx, "C20")
